@@ -1245,10 +1245,109 @@ def nnf_tests(fn):
 
 
 # ---------------------------------------------------------------------------
+# N8 getattr with default on a name-mangled private field -> the optional-field idiom
+# ---------------------------------------------------------------------------
+import re as _re
+
+_MANGLED = _re.compile(r"^_[A-Za-z][A-Za-z0-9]*__[A-Za-z_][A-Za-z0-9_]*$")
+
+
+def desugar_getattr_default(tree):
+    """`getattr(x, "_Cls__field", d)` -> `x._Cls__field if hasattr(x, "_Cls__field") else d` (x a plain name)"""
+    n_done = 0
+
+    class T(ast.NodeTransformer):
+        def visit_Call(self, node):
+            nonlocal n_done
+            self.generic_visit(node)
+            if isinstance(node.func, ast.Name) and node.func.id == "getattr" and len(node.args) == 3 and not node.keywords \
+                    and isinstance(node.args[0], ast.Name) and isinstance(node.args[1], ast.Constant) \
+                    and isinstance(node.args[1].value, str) and _MANGLED.match(node.args[1].value) \
+                    and isinstance(node.args[2], (ast.Constant, ast.Name)):
+                x, name, d = node.args
+                new = ast.IfExp(
+                    test=ast.Call(func=ast.Name(id="hasattr", ctx=ast.Load()), args=[copy.deepcopy(x), copy.deepcopy(name)], keywords=[]),
+                    body=ast.Attribute(value=copy.deepcopy(x), attr=name.value, ctx=ast.Load()),
+                    orelse=d)
+                n_done += 1
+                return ast.copy_location(new, node)
+            return node
+    T().visit(tree)
+    if n_done:
+        ast.fix_missing_locations(tree)
+    return n_done
+
+
+def desugar_star_unpack(tree):
+    """`head, *rest = seq` (seq a plain name) -> `head = seq[0]; rest = seq[1:]` (analysis only: for a list the values are
+    the same; an empty sequence fails either way)"""
+    n_done = 0
+    for owner in ast.walk(tree):
+        for field, blk in _blocks(owner) if not isinstance(owner, ast.Module) else [("body", owner.body)]:
+            i = 0
+            while i < len(blk):
+                st = blk[i]
+                if isinstance(st, ast.Assign) and len(st.targets) == 1 and isinstance(st.targets[0], (ast.Tuple, ast.List)) \
+                        and len(st.targets[0].elts) == 2 and isinstance(st.targets[0].elts[0], ast.Name) \
+                        and isinstance(st.targets[0].elts[1], ast.Starred) and isinstance(st.targets[0].elts[1].value, ast.Name) \
+                        and isinstance(st.value, ast.Name):
+                    h, r = st.targets[0].elts[0], st.targets[0].elts[1].value
+                    a1 = ast.Assign(targets=[ast.Name(id=h.id, ctx=ast.Store())],
+                                    value=ast.Subscript(value=ast.Name(id=st.value.id, ctx=ast.Load()), slice=ast.Constant(value=0), ctx=ast.Load()))
+                    a2 = ast.Assign(targets=[ast.Name(id=r.id, ctx=ast.Store())],
+                                    value=ast.Subscript(value=ast.Name(id=st.value.id, ctx=ast.Load()),
+                                                        slice=ast.Slice(lower=ast.Constant(value=1), upper=None, step=None), ctx=ast.Load()))
+                    for a in (a1, a2):
+                        ast.copy_location(a, st)
+                        ast.fix_missing_locations(a)
+                    blk[i:i + 1] = [a1, a2]
+                    n_done += 1
+                    i += 2
+                    continue
+                i += 1
+    return n_done
+
+
+def resugar_or(tree):
+    """`if v: t = v else: t = e`  /  `if not v: t = e else: t = v`  ->  `t = v or e` (v a plain name)"""
+    n_done = 0
+    for owner in ast.walk(tree):
+        for field, blk in _blocks(owner) if not isinstance(owner, ast.Module) else [("body", owner.body)]:
+            for i, st in enumerate(blk):
+                if not (isinstance(st, ast.If) and len(st.body) == 1 and len(st.orelse) == 1):
+                    continue
+                test, a, b = st.test, st.body[0], st.orelse[0]
+                if isinstance(test, ast.UnaryOp) and isinstance(test.op, ast.Not):
+                    test, a, b = test.operand, b, a
+                simple = isinstance(test, ast.Name) or (isinstance(test, ast.Attribute) and isinstance(test.value, ast.Name))
+                if not (simple and all(isinstance(x, ast.Assign) and len(x.targets) == 1
+                                       and isinstance(x.targets[0], ast.Name) for x in (a, b))):
+                    continue
+                if a.targets[0].id != b.targets[0].id or ast.dump(a.value) != ast.dump(test):
+                    continue
+                new = ast.Assign(targets=[ast.Name(id=a.targets[0].id, ctx=ast.Store())],
+                                 value=ast.BoolOp(op=ast.Or(), values=[copy.deepcopy(test), b.value]))
+                ast.copy_location(new, st)
+                ast.fix_missing_locations(new)
+                blk[i] = new
+                n_done += 1
+    return n_done
+
+
+# ---------------------------------------------------------------------------
 def normalize_module(tree, property_names=None):
     """in place; -> dict of counters (generator helpers are inlined program-wide before this); property_names: attribute
     names that are properties of the package (None: attribute reads are never moved)"""
     stats = {}
+    k = desugar_getattr_default(tree)
+    if k:
+        stats["getattr_default"] = k
+    k = resugar_or(tree)
+    if k:
+        stats["or_resugared"] = k
+    k = desugar_star_unpack(tree)
+    if k:
+        stats["star_unpack"] = k
     k = desugar_dispatch(tree)
     if k:
         stats["dispatch_tables"] = k
